@@ -16,10 +16,10 @@ def make_hook(modules, seconds_quick=4.0, seconds_thorough=40.0, only=None):
         names = set(m.__name__ for m in mods)
         budget = seconds_quick if tier == "quick" else seconds_thorough
         todo = [fq for fq, c in sorted(api.REG.contracts.items()) if c.sidecar in names and not c.trusted and not (only and c.short not in only)]
-        import multiprocessing as mp
+        from concurrent.futures import ThreadPoolExecutor
 
-        with mp.get_context("fork").Pool(min(8, max(1, len(todo)))) as pool:
-            outs = pool.map(_one, [(fq, seed, budget) for fq in todo], chunksize=1)
+        with ThreadPoolExecutor(min(8, max(1, len(todo)))) as pool:  # each job runs in its own guarded child process
+            outs = list(pool.map(_one, [(fq, seed, budget) for fq in todo]))
         for fq, r in zip(todo, outs):
             c = api.REG.contracts[fq]
             label = "native contract check of %s%s" % (fq, " (bounded_only: %s)" % c.bounded_only if getattr(c, "bounded_only", None) else "")
@@ -41,10 +41,12 @@ def _one(job):
     from pyvc import api
     from pyvc.nativefn import bounded_contract
 
-    try:
-        r = bounded_contract(api.REG.contracts[fq], seed, seconds=budget, budget=200000)
-    except Exception as e:  # a crash of the native runner is a checker problem, not a verdict
-        return {"ran": False, "reason": "native runner error %r" % (e,)}
+    from pyvc import native
+
+    def run():
+        return bounded_contract(api.REG.contracts[fq], seed, seconds=budget, budget=200000)
+
+    r = native.guarded(run, (), budget)  # child process: wall-clock limit and address-space cap
     f = r.get("fail")
     if f is not None:
         r = dict(r, fail=_jsonable(f.as_dict() if hasattr(f, "as_dict") else f))
